@@ -28,6 +28,8 @@ def plan(rng, thorough):
     add("match", cls="equal", dsse=True, diffs=[])
     add("match", cls="diff", dsse=True, diffs=["differ"])
     add("match", cls="equal", dsse=True, diffs=[], signed=True)
+    add("match", cls="diff", dsse=False, diffs=["other_algorithm"])
+    add("match", cls="diff", dsse=True, diffs=["other_algorithm"])
 
     # ---- in-toto-verify
     core_cls = ["pass", "expired", "missing_links", "threshold", "rule_violation", "insp_fail", "link_tamper"]
@@ -36,6 +38,8 @@ def plan(rng, thorough):
             for dsse in (False, True):
                 add("verify", n=(2 if keyform == "vk" else 1) * k, cls=cls, keyform=keyform, dsse=dsse,
                     linkdir=rng.random() < 0.7, timeout=rng.choice([None, None, 5]))
+    for dsse in (False, True):
+        add("verify", n=k, cls="sub_insp_slow", keyform="vk", dsse=dsse, timeout=5, scripted_seconds=7.0)
     for sub in ("unsigned", "edited", "sig_nibble", "wrong_signer", "one_missing"):
         for keyform in ("vk", "lk", "vk+lk"):
             for dsse in (False, True):
